@@ -140,8 +140,7 @@ class MemTrigger(BaseTrigger):
         :param conditions: List of valid conditions to clear
         """
         for condition in conditions:
-            if condition.valid_condition_id in self._valid_conditions:
-                del self._valid_conditions[condition.valid_condition_id]
+            self._valid_conditions.pop(condition.valid_condition_id, None)
 
     def _get_all_conditions(self) -> list[TriggerCondition]:
         """
